@@ -19,7 +19,7 @@ def fam_rewrites(rng, n):
                  "are aligned state by state through the documented layout and must agree (for (4): on the "
                  "states that remain in the space); distinct = distinct model; non-trivial = the rewriting "
                  "changed the layout or the restricted set")
-    bases = e2e.gen_cases(rng, n, features=[{"filter"}, set(), {"period_filter"}, {"stochastic"}, {"filter", "stochastic"}, {"constraint"}])
+    bases = e2e.gen_cases(rng, n, features=[{"filter"}, {"period_filter"}, {"two_stochastic"}, set(), {"stochastic"}, {"period_filter", "constraint"}, {"filter", "stochastic"}, {"constraint"}])
     jobs = []       # (kind, base index, case, ren)
     cases = []
     for bi, c in enumerate(bases):
@@ -71,7 +71,7 @@ def fam_rewrites(rng, n):
 def run(tier, seed):
     rng = random.Random(seed * 7919 + 10)
     k = 1 if tier == "quick" else 15
-    return [fam_rewrites(rng, 10 * k)]
+    return [fam_rewrites(rng, 12 * k)]
 
 
 def matches_signature(entry, item):
